@@ -36,6 +36,11 @@
 //! commands (`Op::Noise`: list, add and delete of a name that is no rule), which contend for the
 //! breakpoint lock with the listener but cannot change the expected sequence.
 //!
+//! With `--cli <pest_debugger binary>` a sub-workload drives the command-line front end
+//! (debugger/src/main.rs) over stdin, one process per history, with the same generator and
+//! model restricted to what the command line can express, and judges what it prints
+//! (`cli_workload`, `judge_cli`).
+//!
 //! Hangs are judged from the log, not from the clock: see `classify_hang`.
 
 use pest_debugger::{verif, DebuggerContext, DebuggerError, DebuggerEvent};
@@ -45,7 +50,7 @@ use serde_json::{json, Value};
 use std::collections::{BTreeMap, BTreeSet, HashMap, HashSet, VecDeque};
 use std::panic::{catch_unwind, AssertUnwindSafe};
 use std::sync::mpsc::{channel, sync_channel, Receiver, RecvTimeoutError, TryRecvError};
-use std::sync::{Arc, Mutex};
+use std::sync::Arc;
 use std::time::{Duration, Instant};
 use vmon::gen::{gen_grammar, GenCfg, Profile};
 use vmon::model::Outcome;
@@ -243,6 +248,12 @@ fn plain_trace(opt: &[OptimizedRule], rule: &str, input: &str) -> Result<Plain, 
     // The entry sequence of the parse comes from hook H3 (a guard at the very top of
     // `Vm::parse_rule`, before the listener is consulted), not from a listener: the listener is
     // the mechanism under test, so "every rule entry reaches the listener" must not be assumed.
+    // Guard: the reference interpreter has finished on this case within 50,000 steps, but the VM
+    // need not agree with it (e.g. recursion through the implicit skip); a plain parse that needs
+    // more than a million calls is excluded instead of being waited for. The limit is process
+    // global: it is set only here, while no parser thread of the debugger exists, and removed
+    // again before anything else runs.
+    pest::set_call_limit(std::num::NonZeroUsize::new(1_000_000));
     pest::verif::enable(true);
     pest::verif::set_cap(200_000);
     let vm = pest_vm::Vm::new(opt.to_vec());
@@ -250,9 +261,17 @@ fn plain_trace(opt: &[OptimizedRule], rule: &str, input: &str) -> Result<Plain, 
         Ok(_) => "eof".to_string(),
         Err(e) => format!("error:{}", abbrev(&e.to_string())),
     }));
+    let overflowed = pest::verif::overflowed();
     let events = pest::verif::take_events();
     pest::verif::enable(false);
+    pest::set_call_limit(None);
     let fin = fin.map_err(|p| vmon::pestrun::panic_message(&p))?;
+    if fin.contains("call limit reached") {
+        return Err("over the call limit".into());
+    }
+    if overflowed {
+        return Err("more hook events than the cap".into());
+    }
     let entries: Vec<(String, usize)> = events
         .into_iter()
         .filter_map(|e| match e {
@@ -1654,6 +1673,11 @@ fn vet_pair(prep: &Prepared, rule: &str, input: &str, rep: &mut Report) -> Optio
             rep.count("excluded:plain_trace_too_long");
             None
         }
+        Err(e) if e == "over the call limit" || e == "more hook events than the cap" => {
+            rep.count(&format!("excluded:plain_parse_{}", e.replace(' ', "_")));
+            rep.sample_slot("excluded_plain_parse_over_budget", || json!({"grammar": prep.text, "rule": rule, "input": input, "why": e, "note": "the reference interpreter finished on this case within 50,000 steps"}));
+            None
+        }
         Err(_) => {
             rep.count("excluded:plain_parse_panics");
             None
@@ -1793,7 +1817,7 @@ fn run_case(rep: &mut Report, stats: &mut Stats, known_keys: &HashSet<String>, c
         if case.input_spec.is_none() && !ref_terminates(ast, rule, &case.input) {
             return None;
         }
-        let p = plain_trace(opt, rule, &case.input).ok()?;
+        let p = if case.input_spec.is_some() { plain_trace_big(opt, rule, &case.input).ok()? } else { plain_trace(opt, rule, &case.input).ok()? };
         cache.insert(rule.to_string(), p.clone());
         Some(p)
     };
@@ -2016,6 +2040,33 @@ struct Slow {
     plain_ms: u64,
 }
 
+/// Plain trace for the multi-megabyte inputs of the slow-parse cases. The hook-based
+/// `plain_trace` keeps at most 200,000 events, which the millions of repetition events of the
+/// long stretch overflow, so here the entries are recorded by a listener (four calls in all).
+/// `build_slow` ties this back to the hook: on a short input of the same shape the hook-based
+/// trace must be the analogous four entries.
+fn plain_trace_big(opt: &[OptimizedRule], rule: &str, input: &str) -> Result<Plain, String> {
+    let rec: Arc<std::sync::Mutex<Vec<(String, usize)>>> = Arc::new(std::sync::Mutex::new(Vec::new()));
+    let r2 = Arc::clone(&rec);
+    let vm = pest_vm::Vm::new_with_listener(
+        opt.to_vec(),
+        Box::new(move |rule, pos| {
+            let mut g = r2.lock().unwrap_or_else(|e| e.into_inner());
+            if g.len() < 100_000 {
+                g.push((rule, pos.pos()));
+            }
+            false
+        }),
+    );
+    let fin = catch_unwind(AssertUnwindSafe(|| match vm.parse(rule, input) {
+        Ok(_) => "eof".to_string(),
+        Err(e) => format!("error:{}", abbrev(&e.to_string())),
+    }))
+    .map_err(|p| vmon::pestrun::panic_message(&p))?;
+    let entries = rec.lock().unwrap_or_else(|e| e.into_inner()).clone();
+    Ok(Plain { entries, fin })
+}
+
 fn build_slow(rep: &mut Report, target_ms: u64) -> Option<Slow> {
     let prep = prepare("x = { \"b\" }\nr = { x ~ \"a\"* ~ x ~ x }\n", None)?;
     let make = |n: usize| -> String {
@@ -2030,9 +2081,16 @@ fn build_slow(rep: &mut Report, target_ms: u64) -> Option<Slow> {
     let timed = |n: usize| -> Option<(f64, Plain, String)> {
         let input = make(n);
         let t0 = Instant::now();
-        let p = plain_trace(&prep.opt, "r", &input).ok()?;
+        let p = plain_trace_big(&prep.opt, "r", &input).ok()?;
         Some((t0.elapsed().as_secs_f64(), p, input))
     };
+    // the shape of the entry sequence, from hook H3 on a short input
+    let short = plain_trace(&prep.opt, "r", &make(5)).ok()?;
+    let short_expected: Vec<(String, usize)> = vec![("r".into(), 0), ("x".into(), 0), ("x".into(), 6), ("x".into(), 7)];
+    if short.entries != short_expected || short.fin != "eof" {
+        rep.count("slow_case_unusable:unexpected_hook_trace_on_short_input");
+        return None;
+    }
     let n0 = 200_000usize;
     let d0 = timed(n0)?.0.min(timed(n0)?.0).max(1e-6);
     const CAP: f64 = 40_000_000.0;
@@ -2055,7 +2113,7 @@ fn build_slow(rep: &mut Report, target_ms: u64) -> Option<Slow> {
         rep.count("slow_case_unusable:unexpected_plain_trace");
         return None;
     }
-    let px = plain_trace(&prep.opt, "x", &input).ok()?;
+    let px = plain_trace_big(&prep.opt, "x", &input).ok()?;
     let mut plains = HashMap::new();
     plains.insert("r".to_string(), p);
     plains.insert("x".to_string(), px);
@@ -2083,6 +2141,439 @@ fn slow_case(slow: &Slow, busy: bool, delay_seed: u64) -> Case {
         // the old parse needs about plain_ms to reach its next rule entry
         old_watch_ms: slow.plain_ms * 3 + 1000,
         input_spec: Some(slow.spec.clone()),
+    }
+}
+
+
+// ------------------------------------------------------------------------------------------
+// CLI sub-workload: the same statement observed at the command-line front end
+// (debugger/src/main.rs), driven over stdin, one process per history
+// ------------------------------------------------------------------------------------------
+
+/// What main.rs prints, and all the oracle relies on:
+///   r <rule> / c  -> one report: a stop = pest's rendering of a custom error "parsing <rule>" at
+///                    the stop position (` --> LINE:COL` ... `= parsing <rule>`); the end =
+///                    `end-of-input reached`; a failed parse = the VM error text;
+///                    a DebuggerError = `Error: <text>` ("Run rule first", "End-of-input reached")
+///   l             -> `Breakpoints: a, b` (sorted)
+///   b d ba da g id -> nothing
+/// Every command is followed by an `l` (unless it is one), whose `Breakpoints:` line delimits the
+/// command's output and is compared with the model's set. Of a stop only the rule name and the
+/// LINE:COL are compared.
+struct CliOut {
+    stdout: String,
+    stderr: String,
+    finished: bool,
+}
+
+fn cli_input_ok(input: &str) -> bool {
+    // `id <text>` is one line and main.rs trims the command line
+    !input.is_empty() && input == input.trim() && !input.chars().any(|c| c.is_control())
+}
+
+fn ops_to_cli(ops: &[Op]) -> Vec<String> {
+    // r and c wait for their event themselves: there is no separate recv; what the command line
+    // cannot express (pauses, probes of the channel, noise) is dropped, a probe becomes `l`
+    ops.iter()
+        .filter_map(|o| match o {
+            Op::Add(r) => Some(format!("b {r}")),
+            Op::Del(r) => Some(format!("d {r}")),
+            Op::AddAll => Some("ba".to_string()),
+            Op::DelAll => Some("da".to_string()),
+            Op::Run(r) | Op::RunBusy(r) => Some(format!("r {r}")),
+            Op::Cont => Some("c".to_string()),
+            Op::Probe(_) => Some("l".to_string()),
+            Op::Recv | Op::Pause(_) | Op::WaitExit | Op::Noise(_) => None,
+        })
+        .collect()
+}
+
+fn run_cli(bin: &std::path::Path, grammar: &str, input: &str, commands: &[String], tag: &str) -> Result<CliOut, String> {
+    use std::io::{Read, Write};
+    use std::process::{Command, Stdio};
+    let gfile = std::env::temp_dir().join(format!("c17cli-{}-{tag}.pest", std::process::id()));
+    std::fs::write(&gfile, grammar).map_err(|e| format!("write grammar file: {e}"))?;
+    let mut script = String::new();
+    script.push_str(&format!("g {}\nl\nid {input}\nl\n", gfile.display()));
+    for c in commands {
+        script.push_str(c);
+        script.push('\n');
+        if c != "l" {
+            script.push_str("l\n");
+        }
+    }
+    let child = Command::new(bin).arg("--no-update").stdin(Stdio::piped()).stdout(Stdio::piped()).stderr(Stdio::piped()).spawn();
+    let mut child = match child {
+        Ok(c) => c,
+        Err(e) => {
+            let _ = std::fs::remove_file(&gfile);
+            return Err(format!("cannot start {}: {e}", bin.display()));
+        }
+    };
+    let mut so = child.stdout.take().unwrap();
+    let mut se = child.stderr.take().unwrap();
+    let t_out = std::thread::spawn(move || {
+        let mut b = Vec::new();
+        let _ = so.read_to_end(&mut b);
+        String::from_utf8_lossy(&b).into_owned()
+    });
+    let t_err = std::thread::spawn(move || {
+        let mut b = Vec::new();
+        let _ = se.read_to_end(&mut b);
+        String::from_utf8_lossy(&b).into_owned()
+    });
+    {
+        let mut si = child.stdin.take().unwrap();
+        let _ = si.write_all(script.as_bytes());
+    } // EOF ends the debugger
+    let deadline = Instant::now() + Duration::from_secs(90);
+    let mut finished = false;
+    loop {
+        match child.try_wait() {
+            Ok(Some(_)) => {
+                finished = true;
+                break;
+            }
+            Ok(None) => {}
+            Err(_) => break,
+        }
+        if Instant::now() > deadline {
+            break;
+        }
+        std::thread::sleep(Duration::from_millis(2));
+    }
+    if !finished {
+        let _ = child.kill();
+        let _ = child.wait();
+    }
+    let stdout = t_out.join().unwrap_or_default();
+    let stderr = t_err.join().unwrap_or_default();
+    let _ = std::fs::remove_file(&gfile);
+    Ok(CliOut { stdout, stderr, finished })
+}
+
+#[derive(Default)]
+struct CliJudged {
+    violation: Option<(String, Value, Value)>,
+    inconclusive: Option<String>,
+    stops: u64,
+    finals: u64,
+    conts: u64,
+    restarts_stopped: u64,
+    restarts_after_end: u64,
+    checks: u64,
+    sig: Vec<u8>,
+}
+
+/// Output of one command = the lines up to its `Breakpoints:` line, and the listed set.
+fn cli_segments(stdout: &str) -> Vec<(Vec<String>, String)> {
+    let mut segs = vec![];
+    let mut cur: Vec<String> = vec![];
+    for line in stdout.lines() {
+        let l = line.trim_end();
+        if let Some(rest) = l.strip_prefix("Breakpoints:") {
+            segs.push((std::mem::take(&mut cur), rest.trim().to_string()));
+        } else if !l.trim().is_empty() && !l.starts_with("pest_debugger v") {
+            cur.push(l.to_string());
+        }
+    }
+    if !cur.is_empty() {
+        segs.push((cur, "<no Breakpoints: line>".to_string()));
+    }
+    segs
+}
+
+fn judge_cli(names: &[String], input: &str, commands: &[String], out: &CliOut, plain_of: &mut dyn FnMut(&str) -> Option<Plain>) -> CliJudged {
+    let mut j = CliJudged::default();
+    let low = format!("{}\n{}", out.stdout, out.stderr);
+    let segs = cli_segments(&out.stdout);
+    let mut m = Model::new(names);
+    let mut plain: Option<Plain> = None;
+    let timed_out = out.stderr.contains("parsing timed out");
+    // the two set-up commands
+    for (i, what) in ["g <file>", "id <text>"].iter().enumerate() {
+        match segs.get(i) {
+            Some((lines, listed)) if lines.is_empty() && listed.is_empty() => {}
+            Some((lines, listed)) => {
+                j.inconclusive = Some(format!("set-up command `{what}` printed {lines:?} / listed {listed:?}"));
+                return j;
+            }
+            None => {
+                j.inconclusive = Some(format!("no output for the set-up command `{what}`; stderr: {}", out.stderr.chars().take(300).collect::<String>()));
+                return j;
+            }
+        }
+    }
+    let line_col = |pos: usize| -> String { format!("1:{}", input.get(..pos).map(|p| p.chars().count()).unwrap_or(0) + 1) };
+    for (ci, cmd) in commands.iter().enumerate() {
+        let (verb, arg) = match cmd.split_once(' ') {
+            Some((v, a)) => (v, a),
+            None => (cmd.as_str(), ""),
+        };
+        // what the model expects this command to print
+        #[derive(Debug)]
+        enum Want {
+            Nothing,
+            Stop(String, String),
+            Eof,
+            ErrorText(String),
+            Line(&'static str),
+            /// `c` after the end: "Error: End-of-input reached", or nothing on stdout (inside the
+            /// window before is_done is stored cont() succeeds and the wait ends at once because
+            /// the channel is disconnected)
+            EofReachedOrNothing,
+        }
+        let event = |m: &mut Model, plain: &Option<Plain>, j: &mut CliJudged| -> Want {
+            let p = match plain {
+                Some(p) => p,
+                None => return Want::Nothing,
+            };
+            let ev = m.next_event(p);
+            if let Some(rest) = ev.strip_prefix("bp:") {
+                let (rule, pos) = rest.rsplit_once('@').unwrap_or((rest, "0"));
+                j.stops += 1;
+                Want::Stop(rule.to_string(), line_col(pos.parse().unwrap_or(0)))
+            } else if ev == "eof" {
+                j.finals += 1;
+                Want::Eof
+            } else {
+                j.finals += 1;
+                Want::ErrorText(ev.strip_prefix("error:").unwrap_or(&ev).to_string())
+            }
+        };
+        let want = match verb {
+            "b" => {
+                m.edit(&format!("add:{arg}"));
+                Want::Nothing
+            }
+            "d" => {
+                m.edit(&format!("del:{arg}"));
+                Want::Nothing
+            }
+            "ba" => {
+                m.edit("add_all");
+                Want::Nothing
+            }
+            "da" => {
+                m.edit("del_all");
+                Want::Nothing
+            }
+            "l" => Want::Nothing,
+            "r" => {
+                if !names.iter().any(|n| n == arg) {
+                    j.inconclusive = Some(format!("ill-formed history: run of `{arg}`, which the grammar does not define"));
+                    return j;
+                }
+                match m.st {
+                    St::Stopped => j.restarts_stopped += 1,
+                    St::Finished => j.restarts_after_end += 1,
+                    _ => {}
+                }
+                plain = plain_of(arg);
+                if plain.is_none() {
+                    j.inconclusive = Some(format!("no plain trace for `{arg}`"));
+                    return j;
+                }
+                m.run();
+                event(&mut m, &plain, &mut j)
+            }
+            "c" => match m.st {
+                St::Idle => Want::Line("Error: Run rule first"),
+                St::Stopped => {
+                    j.conts += 1;
+                    event(&mut m, &plain, &mut j)
+                }
+                St::Finished => Want::EofReachedOrNothing,
+                St::Running => Want::Nothing,
+            },
+            other => {
+                j.inconclusive = Some(format!("ill-formed history: command `{other}`"));
+                return j;
+            }
+        };
+        j.sig.extend_from_slice(verb.as_bytes());
+        j.sig.extend_from_slice(format!("{want:?}").split('(').next().unwrap_or("").as_bytes());
+        let (lines, listed) = match segs.get(ci + 2) {
+            Some(s) => s.clone(),
+            None => {
+                if !out.finished {
+                    j.inconclusive = Some(format!("the debugger process did not finish within 90 s (stopped before command {} `{cmd}`)", ci + 1));
+                } else {
+                    j.violation = Some(("cli_transcript_ends_early".into(), json!(format!("output of command {} `{cmd}`: {want:?}", ci + 1)), json!({"stderr": out.stderr.chars().take(600).collect::<String>()})));
+                }
+                return j;
+            }
+        };
+        j.checks += 1;
+        let text = lines.join("\n");
+        let ok = match &want {
+            Want::Nothing => lines.is_empty(),
+            Want::Line(l) => lines.len() == 1 && lines[0].trim() == *l,
+            Want::Eof => lines.len() == 1 && lines[0].trim() == "end-of-input reached",
+            Want::EofReachedOrNothing => lines.is_empty() || (lines.len() == 1 && lines[0].trim() == "Error: End-of-input reached"),
+            Want::Stop(rule, lc) => {
+                let arrow = lines.iter().filter(|l| l.trim_start().starts_with("--> ")).map(|l| l.trim_start()[4..].trim().to_string()).collect::<Vec<_>>();
+                let parsing = lines.iter().filter_map(|l| l.trim_start().strip_prefix("= parsing ").map(|x| x.trim().to_string())).collect::<Vec<_>>();
+                arrow.len() == 1 && parsing.len() == 1 && arrow[0] == *lc && parsing[0] == *rule
+            }
+            Want::ErrorText(msg) => {
+                if msg.contains("...[") {
+                    lines.first().map(|l| msg.starts_with(l.as_str())).unwrap_or(false)
+                } else {
+                    let want_lines: Vec<&str> = msg.lines().map(|l| l.trim_end()).filter(|l| !l.trim().is_empty()).collect();
+                    want_lines.len() == lines.len() && want_lines.iter().zip(lines.iter()).all(|(a, b)| *a == b.as_str())
+                }
+            }
+        };
+        if !ok {
+            if lines.is_empty() && timed_out && !matches!(want, Want::Nothing | Want::EofReachedOrNothing) {
+                // the front end itself gave up after its 5 s wait: a clock verdict, not ours
+                j.inconclusive = Some(format!("command {} `{cmd}`: the debugger printed `parsing timed out` instead of {want:?}", ci + 1));
+            } else {
+                j.violation = Some((
+                    "cli_report_mismatch".into(),
+                    json!({"command_number": ci + 1, "command": cmd, "report": format!("{want:?}"), "breakpoints_in_force": m.bps.iter().collect::<Vec<_>>()}),
+                    json!({"printed": text}),
+                ));
+            }
+            return j;
+        }
+        let want_list = m.bps.iter().cloned().collect::<Vec<_>>().join(", ");
+        if listed != want_list {
+            j.violation = Some(("cli_breakpoint_list_mismatch".into(), json!({"after_command": cmd, "list": want_list}), json!({"list": listed})));
+            return j;
+        }
+    }
+    // nothing the model does not predict: no panic text anywhere
+    for needle in ["panicked at", "Previous parsing execution panic"] {
+        if low.contains(needle) {
+            j.violation = Some(("cli_panic_text".into(), json!("no panic of the debugger or of a parser thread"), json!({"found": needle, "stderr": out.stderr.chars().take(600).collect::<String>()})));
+            return j;
+        }
+    }
+    if segs.len() > commands.len() + 2 {
+        j.violation = Some(("cli_unexpected_trailing_output".into(), json!("nothing after the last command"), json!({"printed": segs[commands.len() + 2..].iter().map(|s| s.0.join("\n")).collect::<Vec<_>>()})));
+    }
+    j
+}
+
+struct CliCase {
+    grammar: String,
+    input: String,
+    commands: Vec<String>,
+}
+
+impl CliCase {
+    fn to_json(&self) -> Value {
+        json!({"cli": true, "grammar": self.grammar, "input": self.input, "commands": self.commands})
+    }
+}
+
+/// Runs and judges one CLI history. Returns false on a harness problem that makes further CLI
+/// histories pointless (binary cannot be started).
+fn run_cli_case(rep: &mut Report, bin: &std::path::Path, case: &CliCase, prep: &Prepared, known_plains: &HashMap<String, Plain>, tag: &str) -> bool {
+    rep.journal(|| case.to_json());
+    rep.count("cli_histories");
+    rep.add("cli_commands", case.commands.len() as u64);
+    let out = match run_cli(bin, &case.grammar, &case.input, &case.commands, tag) {
+        Ok(o) => o,
+        Err(e) => {
+            rep.inconclusive(json!({"reason": format!("cli: {e}"), "witness": case.to_json()}));
+            return false;
+        }
+    };
+    let mut cache = known_plains.clone();
+    let mut plain_of = |rule: &str| -> Option<Plain> {
+        if let Some(p) = cache.get(rule) {
+            return Some(p.clone());
+        }
+        if !ref_terminates(&prep.ast, rule, &case.input) {
+            return None;
+        }
+        let p = plain_trace(&prep.opt, rule, &case.input).ok()?;
+        cache.insert(rule.to_string(), p.clone());
+        Some(p)
+    };
+    let j = judge_cli(&prep.names, &case.input, &case.commands, &out, &mut plain_of);
+    rep.add("evaluations", j.checks);
+    rep.add("cli_reports_checked", j.checks);
+    rep.add("cli_stops_checked", j.stops);
+    rep.add("cli_final_reports_checked", j.finals);
+    rep.add("cli_conts", j.conts);
+    rep.add("cli_restarts_while_stopped", j.restarts_stopped);
+    rep.add("cli_restarts_after_end", j.restarts_after_end);
+    let clip = |s: &str| -> String { s.chars().take(6000).collect() };
+    if let Some((kind, e, o)) = j.violation {
+        if !rep.notes.contains_key("cli_first_violation_at_cli_history") {
+            let n = rep.counters.get("cli_histories").copied().unwrap_or(0);
+            rep.notes.insert("cli_first_violation_at_cli_history".into(), json!(n));
+        }
+        rep.violation(json!({
+            "property": "C17", "kind": kind, "witness": case.to_json(), "expected": e, "observed": o,
+            "stdout": clip(&out.stdout), "stderr": clip(&out.stderr),
+        }));
+    } else if let Some(why) = j.inconclusive {
+        rep.inconclusive(json!({"reason": format!("cli: {why}"), "witness": case.to_json(), "stdout": clip(&out.stdout), "stderr": clip(&out.stderr)}));
+    }
+    if j.stops >= 2 && j.conts >= 1 {
+        let h = hash_bytes(&[b"cli", case.grammar.as_bytes(), case.input.as_bytes(), case.commands.join("\n").as_bytes()]);
+        rep.nontrivial(h, hash_bytes(&[b"cli", &j.sig]));
+        rep.count("cli_histories_nontrivial");
+    }
+    if j.restarts_stopped > 0 {
+        rep.sample_slot("cli_restart_while_stopped", || json!({"case": case.to_json(), "stops": j.stops}));
+    }
+    true
+}
+
+/// The CLI sub-workload of one shard: the API history generator restricted to what the command
+/// line can express.
+fn cli_workload(rep: &mut Report, args: &Args) {
+    let n = args.budget(640, 32_000);
+    let bin = match args.opt("cli") {
+        Some(p) if std::path::Path::new(p).is_file() => std::path::PathBuf::from(p),
+        Some(p) => {
+            rep.add("cli_histories_skipped", n);
+            rep.inconclusive(json!({"reason": format!("--cli {p}: no such file")}));
+            return;
+        }
+        None => {
+            rep.add("cli_histories_skipped", n);
+            return;
+        }
+    };
+    let mut rng = Rng::new(args.seed, "c17-cli", args.shard);
+    let mut done = 0u64;
+    let mut tries = 0u64;
+    while done < n && tries < n * 20 {
+        tries += 1;
+        if rep.elapsed() > args.max_s * 0.5 {
+            rep.notes.insert("cli_stopped_early_at_history".into(), json!(done));
+            break;
+        }
+        let w = if rng.chance(1, 4) { hand_work(rng.below(HAND_GRAMMARS.len()), rep) } else { gen_work(&mut rng, rep) };
+        let mut w = match w {
+            Some(w) => w,
+            None => continue,
+        };
+        w.pairs.retain(|(_, input)| cli_input_ok(input));
+        if w.pairs.is_empty() {
+            continue;
+        }
+        for _ in 0..4 {
+            if done >= n {
+                break;
+            }
+            let (case, plains) = match make_case(&mut rng, &mut w, rep, false) {
+                Some(x) => x,
+                None => break,
+            };
+            let cc = CliCase { grammar: case.grammar.clone(), input: case.input.clone(), commands: ops_to_cli(&case.ops) };
+            done += 1;
+            if !run_cli_case(rep, &bin, &cc, &w.prep, &plains, &format!("{}-{done}", args.shard)) {
+                return;
+            }
+        }
     }
 }
 
@@ -2127,6 +2618,23 @@ pub fn run(args: &Args) {
     if let Some(path) = &args.replay {
         let v: Value = serde_json::from_str(&std::fs::read_to_string(path).expect("replay file")).expect("json");
         let w = if v["witness"].is_object() { v["witness"].clone() } else { v.clone() };
+        if w["cli"].as_bool() == Some(true) {
+            // a CLI history: {"cli": true, "grammar", "input", "commands": [...]}
+            let cc = CliCase {
+                grammar: w["grammar"].as_str().unwrap_or("").to_string(),
+                input: w["input"].as_str().unwrap_or("").to_string(),
+                commands: w["commands"].as_array().map(|a| a.iter().filter_map(|c| c.as_str().map(|s| s.to_string())).collect()).unwrap_or_default(),
+            };
+            match (args.opt("cli"), prepare(&cc.grammar, None)) {
+                (Some(bin), Some(prep)) if cli_input_ok(&cc.input) => {
+                    run_cli_case(&mut rep, std::path::Path::new(bin), &cc, &prep, &HashMap::new(), "replay");
+                }
+                (None, _) => rep.inconclusive(json!({"reason": "a CLI witness needs --cli <path to the pest_debugger binary>"})),
+                _ => rep.inconclusive(json!({"reason": "CLI replay: grammar rejected or input not expressible with `id`"})),
+            }
+            rep.finish(args);
+            std::process::exit(0);
+        }
         let case = case_from_json(&w, "replay").expect("replay file without a history");
         rep.notes.insert("replay".into(), json!("best effort: the history and the delay seed are replayed, the OS scheduler still contributes"));
         match prepare(&case.grammar, None) {
@@ -2169,6 +2677,9 @@ pub fn run(args: &Args) {
         }
     }
     // a history costs ~0.5 ms of CPU plus its injected sleeps (measured: ~8 ms wall per history and shard)
+    // the command-line front end first (no in-process threads involved, so nothing of it can
+    // leak into the API histories' log)
+    cli_workload(&mut rep, args);
     let total = args.budget(12_000, 300_000);
     let mut rng = Rng::new(args.seed, "c17", args.shard);
     let canon = canon_cases(args.seed, &mut rep);
@@ -2186,7 +2697,10 @@ pub fn run(args: &Args) {
             rep.notes.insert("stopped_early_at_history".into(), json!(done));
             break;
         }
-        if slow_turn(done) && slow_served != done && slow_target_ms > 0 {
+        if slow_turn(done) && slow_served != done && slow_target_ms == 0 {
+            slow_served = done; // switched off (`--slow-ms 0`)
+        }
+        if slow_turn(done) && slow_served != done {
             slow_served = done;
             if slow.is_none() {
                 slow = Some(build_slow(&mut rep, slow_target_ms));
